@@ -12,7 +12,10 @@ Strings == {<<>>, <<97>>, <<34, 92, 47>>, <<8, 10, 31>>, <<12, 13, 9>>, <<127, 2
 Numbers == {Num(<<0>>, 1, FALSE), Num(<<0>>, 1, TRUE), Num(<<1>>, 1, FALSE), Num(<<1>>, 22, FALSE), Num(<<1>>, 21, FALSE),
             Num(<<1>>, -5, FALSE), Num(<<1>>, -6, FALSE), Num(<<1, 5>>, -6, TRUE), Num(<<1, 2, 3>>, 2, FALSE),
             Num(<<1, 2, 3>>, 3, FALSE), Num(<<1, 2, 3>>, 5, TRUE), Num(<<5>>, -323, FALSE),
-            Num(<<1, 7, 9, 7, 6, 9, 3, 1, 3, 4, 8, 6, 2, 3, 1, 5, 7>>, 309, FALSE), Num(<<9>>, 0, FALSE), Num(<<9, 9>>, 1, FALSE)}
+            Num(<<1, 7, 9, 7, 6, 9, 3, 1, 3, 4, 8, 6, 2, 3, 1, 5, 7>>, 309, FALSE), Num(<<9>>, 0, FALSE), Num(<<9, 9>>, 1, FALSE),
+            \* 2^53 and 2^60: whole numbers whose neighbours / exact expansions are other integer literals of the same double
+            Num(<<9, 0, 0, 7, 1, 9, 9, 2, 5, 4, 7, 4, 0, 9, 9, 2>>, 16, FALSE),
+            Num(<<1, 1, 5, 2, 9, 2, 1, 5, 0, 4, 6, 0, 6, 8, 4, 7>>, 19, TRUE)}
 Leaves == {Str(s) : s \in Strings} \cup Numbers \cup {Lit("true"), Lit("false"), Lit("null")}
 
 SmallLeaves == {Str(<<97>>), Str(<<34, 92, 47>>), Num(<<1>>, 1, FALSE), Num(<<1, 5>>, -6, TRUE), Lit("null")}
